@@ -30,7 +30,7 @@ def presented (c : Ctx) : Option Presented :=
 
 /-- `v2_check_header_auth` insists on a time stamp -/
 def hasDate (c : Ctx) : Bool :=
-  ((getUnique c.hs (v2b!"date")).orElse fun _ => getUnique c.hs (v2b!"x-amz-date")).isSome
+  !(getAll c.hs (v2b!"date")).isEmpty || (getUnique c.hs (v2b!"x-amz-date")).isSome
 
 def stsOf (m : Mode) (c : Ctx) : Bytes := stringToSign m c.method c.uriPath c.qs c.hs c.vhBucket
 
@@ -109,10 +109,8 @@ theorem check_accept_iff (hmac : Bytes → Bytes → Bytes) (b64 : Bytes → Byt
         | some x =>
           obtain ⟨ak', sg⟩ := x
           simp only [Option.map_some, checkHeaderAuth]
-          have hd : ((getUnique c.hs (v2b!"date")).orElse fun _ => getUnique c.hs (v2b!"x-amz-date")).isNone
-              = !hasDate c := by
-            unfold hasDate
-            cases ((getUnique c.hs (v2b!"date")).orElse fun _ => getUnique c.hs (v2b!"x-amz-date")) <;> rfl
+          have hd : (!(getAll c.hs (v2b!"date")).isEmpty || (getUnique c.hs (v2b!"x-amz-date")).isSome)
+              = hasDate c := rfl
           rw [hd]
           by_cases hdate : hasDate c = true
           · simp only [hdate, Bool.not_true, Bool.false_eq_true, if_false]
